@@ -152,13 +152,29 @@ Print Assumptions C05_h2_wellshaped_errors.
 
 (* merged header lists (readMetaFrame over the decoded block, any fragmentation, any limit): what is
    delivered - truncated or not - has only valid values, lower-case token names for regular fields,
-   known / unrepeated / unmixed pseudo-header fields, and fits MaxHeaderListSize.  One direction
-   (soundness of delivery); when a block is refused, and with which class, is tied by correspondence *)
-Theorem C05_h2_meta_delivered_sound_partial : forall mx sid frags fields trunc,
+   known / unrepeated / unmixed pseudo-header fields, and fits MaxHeaderListSize *)
+Theorem C05_h2_meta_delivered_sound : forall mx sid frags fields trunc,
   h2_meta mx sid frags = MOk fields trunc ->
   Forall hfield_ok fields /\ check_pseudos fields = true /\ list_size fields <= mx.
 Proof. exact h2_meta_delivered_sound. Qed.
-Print Assumptions C05_h2_meta_delivered_sound_partial.
+Print Assumptions C05_h2_meta_delivered_sound.
+
+(* a refused header block is a connection PROTOCOL_ERROR or a stream PROTOCOL_ERROR on its own stream *)
+Theorem C05_h2_meta_error_classes : forall mx sid frags e, h2_meta mx sid frags = MErr e ->
+  e = EConn ErrCodeProtocol \/ e = EStream sid ErrCodeProtocol.
+Proof. exact h2_meta_error_classes. Qed.
+Print Assumptions C05_h2_meta_error_classes.
+
+(* and the other direction of delivery: valid fields, pseudo-header fields first and consistent, list
+   size within MaxHeaderListSize (< 2^31), every fragment within the size guard => delivered complete
+   and untruncated, however the block is cut into HEADERS + CONTINUATION frames *)
+Theorem C05_h2_meta_wellformed_delivered : forall mx sid frags,
+  let fields := all_fields frags in
+  Forall hfield_ok fields -> pseudo_first_from false fields -> check_pseudos fields = true ->
+  list_size fields <= mx -> mx < 2 ^ 31 -> frag_lens_ok mx frags ->
+  h2_meta mx sid frags = MOk fields false.
+Proof. exact h2_meta_wellformed_delivered. Qed.
+Print Assumptions C05_h2_meta_wellformed_delivered.
 
 (* ---------- HTTP/3 frames (RFC 9114 §7.1, §7.2.4; internal/http3/frames.go) ---------- *)
 
